@@ -89,6 +89,8 @@ def rule_converters(ctx):
     yield ob(R, f, "io.load_delimited:rows-are-file-lines", direct, "rows are the file object's own lines (iteration / readlines), not a re-split of its text (str.splitlines also breaks on U+2028, form feed, ...)")
     # the converted value itself is what is stored
     ap = [m for m in s.by_kind("mutate") if m.how == "method:append"]
+    if not ap and any(c.fn is not None and c.fn.op == "iter" and any(z.op == "comp" and any(y.op == "attr" and y.a[1] == "append" for y in tm.walk(z.a[1])) for z in tm.walk(c.fn)) for c in s.calls()):
+        raise AnalysisError(R, "load_delimited: the columns are filled through a list of bound append methods; which column receives which value is not read")
     good = bool(ap) and all(m.val.op == "tuple" and len(m.val.a) == 1 and m.val.a[0].op == "call" and m.val.a[0].a[0].op == "iter" for m in ap)
     if not good and ap:
         # values may travel through intermediate lists (rows first, columns afterwards): every appended value is either
@@ -196,6 +198,8 @@ def rule_errdisc(ctx):
             if not line_dep:
                 continue
             if c.fn is not None and c.fn.op == "iter":
+                if c.fn.a[0].op != "param" and any(z.op == "comp" and any(y.op == "attr" and y.a[1] in ("append", "extend", "add") for y in tm.walk(z.a[1])) for z in tm.walk(c.fn)):
+                    continue  # an element of [column.append for column in columns]: storing, not converting
                 convs.append(("converter call", c))
             elif c.callee == "builtins.float":
                 convs.append(("float()", c))
